@@ -35,6 +35,62 @@ IGNORED = ("ign.c", "build/gen.py")
 # file that Git ignores): target of the link, relative to the project root
 TOML_LINKS = {"dangling-out": "../sentinel/new5.txt", "live-out": "../sentinel/keep.txt", "dangling-in": "conf/nowhere.toml",
               "live-in": "conf/reuse.toml", "live-in-source": "a.c"}
+# tree flavour "dl": `.reuse/dep5` (or `.reuse` itself) is a symbolic link.  name -> (files inside the project, files in the sentinel
+# directory, links; "<TOP>" = the scratch directory, for absolute targets, "<DEP5>" = the dep5 text)
+DEP5_LINKS = {
+    "file-in": ({"debian/copyright": "<DEP5>"}, {}, {".reuse/dep5": "../debian/copyright"}),
+    "file-out": ({".reuse/keep.txt": "k\n"}, {"copyright": "<DEP5>"}, {".reuse/dep5": "../../sentinel/copyright"}),
+    "abs-out": ({}, {"copyright": "<DEP5>"}, {".reuse/dep5": "<TOP>/sentinel/copyright"}),
+    "abs-in": ({"debian/copyright": "<DEP5>"}, {}, {".reuse/dep5": "<TOP>/proj/debian/copyright"}),
+    "chain-in": ({"debian/copyright": "<DEP5>"}, {}, {".reuse/dep5": "dep5.real", ".reuse/dep5.real": "../debian/copyright"}),
+    "chain-out": ({}, {"copyright": "<DEP5>"}, {".reuse/dep5": "../pkg", "pkg": "../sentinel/copyright"}),
+    "sibling-in": ({".reuse/dep5.in": "<DEP5>"}, {}, {".reuse/dep5": "dep5.in"}),
+    "dir-in": ({"packaging/reuse/dep5": "<DEP5>"}, {}, {".reuse": "packaging/reuse"}),
+    "dir-in-link": ({"debian/copyright": "<DEP5>", "packaging/reuse/other.txt": "o\n"}, {}, {".reuse": "packaging/reuse", "packaging/reuse/dep5": "../../debian/copyright"}),
+    "dir-out": ({}, {"reuse-dir/dep5": "<DEP5>", "reuse-dir/templates/t.jinja2": "t\n"}, {".reuse": "../sentinel/reuse-dir"}),
+    "dir-out-link": ({}, {"reuse-dir/other.txt": "o\n", "copyright": "<DEP5>"}, {".reuse": "../sentinel/reuse-dir", "../sentinel/reuse-dir/dep5": "../copyright"}),
+    "dangling": ({".reuse/keep.txt": "k\n"}, {}, {".reuse/dep5": "../nowhere/copyright"}),
+}
+# the snapshot key of the directory entry `.reuse/dep5` where `.reuse` is itself a link (the walk of the snapshot does not follow links)
+DEP5_ENTRY = {"dir-in": "packaging/reuse/dep5", "dir-in-link": "packaging/reuse/dep5", "dir-out": "../sentinel/reuse-dir/dep5",
+              "dir-out-link": "../sentinel/reuse-dir/dep5"}
+# tree flavour "odd": file names that are not valid UTF-8 (surrogate-escaped here, raw bytes on disk: Latin-1, a lone continuation byte,
+# a truncated sequence, an overlong form, an encoded surrogate, 0xff 0xfe) and valid but unusual ones (NFC / NFD spellings of the same
+# text, stacked combining characters, a character outside the BMP, a space).  tree["odd"] = {"cov": [...], "ign": [...], "igndir": [...],
+# "twin": None | "nfc" | "nfd"}: NAME.py at the top and in oddd/ (covered), NAME.gen.py at the top and in oddd/ (ignored through
+# `*.gen.py`), oddd/NAME.tmpdir/in.py (directory ignored through `*.tmpdir/`), and the twins oddd/twin-caf\u00e9.c / oddd/twin-cafe\u0301.c
+# of which .git/info/exclude names exactly one, byte for byte.  oddd/keep.py is tracked.
+ODD_NAMES = {
+    "latin1": "r\udce9sum\udce9", "cont": "x\udc80y", "trunc": "caf\udcc3", "overlong": "o\udcc0\udcaf", "surr": "s\udced\udca0\udc80",
+    "ff": "\udcff\udcfe", "nfc": "caf\u00e9", "nfd": "cafe\u0301", "comb": "a\u0308\u0323", "astral": "\U0001f600", "space": "na\u00efve name",
+}
+ODD_UTF8 = ("nfc", "nfd", "comb", "astral", "space")
+TWINS = {"nfc": "oddd/twin-caf\u00e9.c", "nfd": "oddd/twin-cafe\u0301.c"}
+
+
+def odd_files(case):
+    """-> (covered odd files, ignored odd files) of the tree, {} {} without the flavour"""
+    o = case["tree"].get("odd")
+    if not o:
+        return {}, {}
+    cov, ign = {"oddd/keep.py": "k = 1\n"}, {}
+    for k in o.get("cov", []):
+        cov[ODD_NAMES[k] + ".py"] = "c = 1\n"
+        cov["oddd/" + ODD_NAMES[k] + ".py"] = "c = 2\n"
+    for k in o.get("ign", []):
+        ign[ODD_NAMES[k] + ".gen.py"] = "g = 1\n"
+        ign["oddd/" + ODD_NAMES[k] + ".gen.py"] = "g = 2\n"
+    for k in o.get("igndir", []):
+        ign["oddd/" + ODD_NAMES[k] + ".tmpdir/in.py"] = "t = 1\n"
+    if o.get("twin"):
+        for k, n in TWINS.items():
+            (ign if k == o["twin"] else cov)[n] = "int twin;\n"
+    if not case["tree"].get("git"):
+        cov.update(ign)
+        ign = {}
+    return cov, ign
+
+
 # tree flavour "sub": projects below the top of the repository (`reuse --root pkg/app`, `--root src`, `--root pkg`), with ignore rules
 # at the top (.gitignore: *_local.py, build/, *.ign.c), below (pkg/app/.gitignore: secret.c, /tmp_*/) and in .git/info/exclude (*.tmp.c)
 SUB_ROOTS = ["pkg/app", "src", "pkg"]
@@ -54,7 +110,7 @@ SUB_IGNORED = ("pkg/app/settings_local.py", "pkg/app/build/generated.py", "pkg/a
 def ignored_of(case):
     if not case["tree"].get("git"):
         return set()
-    return set(IGNORED) | (set(SUB_IGNORED) if case["tree"].get("sub") else set())
+    return set(IGNORED) | (set(SUB_IGNORED) if case["tree"].get("sub") else set()) | set(odd_files(case)[1])
 # (single, multi, terminator, uncommentable) by extension — written down from the documentation
 STYLES = {".c": (0, 1, "*/", 0), ".cpp": (1, 1, "*/", 0), ".py": (1, 0, "", 0), ".html": (0, 1, "-->", 0), ".csv": (0, 0, "", 1),
           ".png": (0, 0, "", 1), ".license": (0, 0, "", 0), ".gitignore": (1, 0, "", 0), ".toml": (1, 0, "", 0)}
@@ -79,6 +135,12 @@ def tree_of(case):
     if t.get("sub"):
         files.update(SUB_FILES)
         files[".gitignore"] = "ign.c\nbuild/\n*_local.py\n*.ign.c\n"
+    if t.get("odd"):
+        oc, oi = odd_files(case)
+        files.update(oc)
+        files.update(oi)
+        if t.get("git"):
+            files[".gitignore"] += "*.gen.py\n*.tmpdir/\n"
     if t.get("tl") in TOML_LINKS:
         files["conf/reuse.toml"] = TOML
         links["REUSE.toml"] = TOML_LINKS[t["tl"]]
@@ -88,7 +150,11 @@ def tree_of(case):
         files[".gitignore"] = files.get(".gitignore", "") + "REUSE.toml\n"
     elif t.get("tl") == "dir":
         files["REUSE.toml/keep.txt"] = "a directory of that name\n"
-    if t.get("lic") == "dep5":
+    if t.get("lic") == "dep5" and t.get("dl"):
+        inside, _, dlinks = DEP5_LINKS[t["dl"]]
+        files.update({n: DEP5 if c == "<DEP5>" else c for n, c in inside.items()})
+        links.update(dlinks)
+    elif t.get("lic") == "dep5":
         files[".reuse/dep5"] = DEP5
     elif t.get("lic") == "toml":
         files["REUSE.toml"] = TOML
@@ -115,14 +181,23 @@ def tree_of(case):
     return files, links
 
 
+def sentinel_of(case):
+    t = case["tree"]
+    out = dict(SENTINEL)
+    if t.get("lic") == "dep5" and t.get("dl"):
+        out.update({n: DEP5 if c == "<DEP5>" else c for n, c in DEP5_LINKS[t["dl"]][1].items()})
+    return out
+
+
 def materialise(top, case):
     files, links = tree_of(case)
     proj = os.path.join(top, "proj")
     os.makedirs(proj)
     cli.write_tree(proj, files)
-    cli.write_tree(os.path.join(top, "sentinel"), SENTINEL)
+    cli.write_tree(os.path.join(top, "sentinel"), sentinel_of(case))
     for n, target in links.items():
-        os.symlink(target, os.path.join(proj, n))
+        os.makedirs(os.path.dirname(os.path.join(proj, n)), exist_ok=True)
+        os.symlink(target.replace("<TOP>", top), os.path.join(proj, n))
     os.chmod(os.path.join(proj, "ro.c"), 0o444)
     if case["tree"].get("git"):
         subprocess.run(["git", "init", "-q"], cwd=proj, check=True, capture_output=True)
@@ -144,6 +219,20 @@ def materialise(top, case):
             r = subprocess.run(["git", "check-ignore", "--no-index", "--"] + sorted(files), cwd=proj, capture_output=True, text=True)
             if set(r.stdout.split()) != set(IGNORED) | set(SUB_IGNORED):
                 raise RuntimeError("generator precondition: git check-ignore says %s" % sorted(set(r.stdout.split()) ^ (set(IGNORED) | set(SUB_IGNORED))))
+        if case["tree"].get("odd"):
+            with open(os.path.join(proj, ".git", "info", "exclude"), "ab") as fp:
+                if case["tree"]["odd"].get("twin"):
+                    fp.write(os.fsencode(TWINS[case["tree"]["odd"]["twin"]]) + b"\n")
+            subprocess.run(["git", "add", "--", "oddd/keep.py"], cwd=proj, check=True, capture_output=True)
+            # generator precondition: Git itself calls exactly the listed odd files ignored (names travel as bytes)
+            oc, oi = odd_files(case)
+            r = subprocess.run(["git", "check-ignore", "--no-index", "-z", "--stdin"], cwd=proj, capture_output=True,
+                               input=b"".join(os.fsencode(n) + b"\0" for n in sorted(list(oc) + list(oi))))
+            said = {os.fsdecode(x) for x in r.stdout.split(b"\0") if x}
+            if said != set(oi):
+                raise RuntimeError("generator precondition: git check-ignore differs on %r" % sorted(said ^ set(oi)))
+        if case["tree"].get("sub"):
+            pass
         elif case["tree"].get("tracked"):
             # tracked files whose time stamps are then changed: `git status` would like to refresh the index
             subprocess.run(["git", "add", "a.c", "b.py", "src", "ro.c", "l_in.c"], cwd=proj, check=True, capture_output=True)
@@ -283,7 +372,7 @@ def allowed_for(case, cmd, s0):
     if k == "spdx-o":
         return {os.path.normpath(cmd["out"])}, True
     if k == "convert-dep5":
-        return {R("REUSE.toml"), R(".reuse/dep5")}, True
+        return {R("REUSE.toml"), dep5_entry(case)}, True
     if k == "download":
         al = set()
         if cmd.get("out"):
@@ -307,14 +396,27 @@ def allowed_for(case, cmd, s0):
     raise ValueError(k)
 
 
+def dep5_entry(case):
+    """the snapshot key of the directory entry `.reuse/dep5` of the project"""
+    t = case["tree"]
+    if t.get("lic") == "dep5" and t.get("dl") in DEP5_ENTRY:
+        return DEP5_ENTRY[t["dl"]]
+    return os.path.normpath(os.path.join(root_rel(case), ".reuse/dep5"))
+
+
 def judge(case, cmd, s0, s1, g0, g1):
     al, may_modify = allowed_for(case, cmd, s0)
+    entry = dep5_entry(case) if cmd["cmd"] == "convert-dep5" else None
     what = " ".join(argv_of(case, cmd)) + (" (in %s)" % case["cwd"] if case.get("cwd", ".") != "." else "")
     if g0 != g1:
         return "git-metadata: `reuse %s` changed .git/index, HEAD or config" % what
     for rel in sorted(set(s0) | set(s1)):
         a, b = s0.get(rel), s1.get(rel)
         if a == b:
+            continue
+        if rel == entry and b is None:
+            # the documented effect of convert-dep5: the ENTRY `.reuse/dep5` goes -- a regular file or a symbolic link (the link,
+            # never what it points to); where `.reuse` itself is a link, the entry lives in the directory `.reuse` points to
             continue
         if rel.startswith(".."):
             return "outside-project: `reuse %s` changed %s outside the project (%s -> %s)" % (what, rel, a, b)
@@ -329,9 +431,9 @@ def judge(case, cmd, s0, s1, g0, g1):
             return "overwrite: `reuse %s` may only add files but changed the existing %s" % (what, rel)
     if cmd["cmd"] == "convert-dep5":
         ch = {rel for rel in al if s0.get(rel) != s1.get(rel)}
-        toml, dep5 = os.path.normpath(os.path.join(root_rel(case), "REUSE.toml")), os.path.normpath(os.path.join(root_rel(case), ".reuse/dep5"))
-        if ch and not (toml not in s0 and toml in s1 and dep5 in s0 and dep5 not in s1):
-            return "convert-shape: convert-dep5 did something other than creating REUSE.toml and removing .reuse/dep5: %s" % sorted(ch)
+        toml, dep5 = os.path.normpath(os.path.join(root_rel(case), "REUSE.toml")), entry
+        if ch and not (toml not in s0 and toml in s1 and s1[toml][0] == "file" and dep5 in s0 and dep5 not in s1):
+            return "convert-shape: convert-dep5 did something other than creating the file REUSE.toml and removing the entry .reuse/dep5: %s" % sorted(ch)
     return None
 
 
@@ -351,8 +453,42 @@ class _Stub:
         return False
 
 
+def gen_odd(rng, git):
+    """covered files only get the valid-UTF-8 kinds: the tool prints the names of the files it handles, and the strict UTF-8 stream
+    of the in-process runner cannot take the others (a matter of C16, not of what is written where)"""
+    kinds = sorted(ODD_NAMES) if git else list(ODD_UTF8)
+    return {"cov": rng.sample(ODD_UTF8, rng.randint(0, 3)), "ign": rng.sample(kinds, rng.randint(1, 3)),
+            "igndir": rng.sample(kinds, rng.randint(0, 2)), "twin": rng.choice([None, "nfc", "nfd"])}
+
+
+def printable(name):
+    try:
+        name.encode("utf-8")
+        return True
+    except UnicodeEncodeError:
+        return False
+
+
+def gen_odd_cmd(rng, case):
+    oc, oi = odd_files(case)
+    c = {"cmd": "annotate", "dot": rng.choice([None, None, "force", "fallback", "skip"])}
+    if rng.random() < 0.6:
+        c["recursive"] = True
+        c["named"] = [rng.choice(["oddd", "oddd", ".", "src"])] if c["dot"] else ["oddd"]
+        if rng.random() < 0.3:
+            c["named"] += rng.sample(sorted(oc), min(len(oc), rng.randint(1, 2)))
+    else:
+        # named one by one: covered ones, and (a file that is named is annotated, ignored or not) now and then an ignored one
+        # (only names the tool can print: it reports every file it annotated)
+        pool = sorted(oc) * 2 + [n for n in sorted(oi) if printable(n)] + ["a.c", "b.py"]
+        c["named"] = list(dict.fromkeys(rng.sample(pool, rng.randint(1, 4))))
+    return c
+
+
 def gen_cmd(rng, case, modelled=True):
     files, links = tree_of(case)
+    if case["tree"].get("odd") and rng.random() < 0.5:
+        return gen_odd_cmd(rng, case)
     r = rng.random()
     if r < 0.30:
         return {"cmd": rng.choice(sorted(READ_ONLY))}
@@ -427,6 +563,10 @@ class CommandStream(Stream):
         t = {"git": git, "tracked": git and rng.random() < 0.6, "lic": rng.choice(["dep5", "dep5", "toml", "none"]),
              "sibs": ["b.py"] if rng.random() < 0.3 else [], "sl": rng.random() < 0.3, "dsl": rng.random() < 0.25,
              "lr": rng.choice([None, None, None, "file", "link", "dangling"]) if not self.modelled else None}
+        if t["lic"] == "dep5" and not self.modelled and rng.random() < 0.4:
+            t["dl"] = rng.choice(sorted(DEP5_LINKS))    # .reuse/dep5 (or .reuse) is a symbolic link: the model's convert-dep5 reads a regular file only
+        if not self.modelled and rng.random() < 0.2:
+            t["odd"] = gen_odd(rng, git)
         if t["lic"] != "toml" and rng.random() < 0.2:
             t["tl"] = rng.choice(sorted(TOML_LINKS) + ["dir"] + (["ignored-file"] if git else []))   # REUSE.toml is there, but not as a file the project reads
         return t
@@ -574,12 +714,12 @@ class CommandStream(Stream):
     # -- oracle ---------------------------------------------------------------
     def oracle(self, case, impl_out):
         snaps, gits, exits, err = self.side[json.dumps(case, sort_keys=True)]
-        if err:
-            return "traceback: " + err
         for i, cmd in enumerate(case["cmds"]):
             why = judge(case, cmd, snaps[i], snaps[i + 1], gits[i], gits[i + 1])
             if why:
-                return why
+                return why.encode("utf-8", "backslashreplace").decode("utf-8")   # names that are not UTF-8 stay printable
+        if err:
+            return "traceback: " + err
         return None
 
     def classify(self, case, failure):
@@ -601,7 +741,23 @@ class UnmodelledStream(CommandStream):
             "clauses only (these variants are verified in depth under C19)")
 
     def cases(self, tier, rng):
-        for _ in range(150 if tier == "thorough" else 25):
+        thorough = tier == "thorough"
+        # `.reuse/dep5` is a symbolic link (relative, absolute, a chain; to a file inside the project or in the sentinel directory;
+        # dangling), or `.reuse` is a link to a directory (inside, outside) that holds dep5 (itself a file or a link): convert-dep5
+        # alone, after read-only commands, twice, followed by annotate / lint on the converted project
+        for dl in sorted(DEP5_LINKS):
+            for git in ((False, True) if thorough else (dl.startswith(("chain", "abs")),)):
+                tree = {"git": git, "tracked": git, "lic": "dep5", "sibs": [], "sl": False, "dl": dl}
+                yield {"tree": tree, "terms": [], "cmds": [{"cmd": "convert-dep5"}]}
+                yield {"tree": tree, "terms": [], "cmds": [{"cmd": rng.choice(["lint", "spdx", "lint-json"])}, {"cmd": "convert-dep5"},
+                                                           {"cmd": "annotate", "dot": rng.choice([None, "fallback"]), "recursive": True, "named": ["src"]},
+                                                           {"cmd": "convert-dep5"}, {"cmd": "lint"}]}
+                if thorough:
+                    for k in sorted(READ_ONLY) + ["lint-file"]:
+                        yield {"tree": tree, "terms": [], "cmds": [{"cmd": k, "named": ["a.c", "data.csv"]} if k == "lint-file" else {"cmd": k}]}
+                    yield {"tree": dict(tree, tl=rng.choice(sorted(TOML_LINKS))), "terms": [], "cmds": [{"cmd": "convert-dep5"}]}
+                    yield {"tree": tree, "terms": [], "cmds": [{"cmd": "annotate", "dot": "fallback", "recursive": True, "named": ["."]}, {"cmd": "convert-dep5"}]}
+        for _ in range(150 if thorough else 25):
             case = {"tree": self.gen_tree(rng), "terms": []}
             case["cmds"] = [gen_cmd(rng, case, False) for _ in range(rng.randint(1, 3))]
             if not any(c["cmd"] == "download" for c in case["cmds"]):
@@ -615,6 +771,45 @@ class UnmodelledStream(CommandStream):
                     if out:
                         cmd["out"] = out
                     yield {"tree": {"git": False, "lic": "none", "sibs": [], "sl": False, "lr": lr}, "terms": [], "cmds": [cmd]}
+
+
+class OddNameStream(CommandStream):
+    name = "oddnames"
+    modelled = False
+    rule = ("file names that are not valid UTF-8 (Latin-1 bytes, a lone continuation byte, a truncated sequence, an overlong form, an "
+            "encoded surrogate, 0xff 0xfe) and unusual valid ones (NFC and NFD spellings, stacked combining characters, a character "
+            "outside the BMP, a blank): Git-ignored files and directories carry any of them (through the patterns *.gen.py, *.tmpdir/ "
+            "and through an exact byte-for-byte name in .git/info/exclude that tells an NFC-named file from its NFD-named twin), "
+            "covered files the valid ones; `git check-ignore` confirms the generator's list; every kind alone and seeded mixtures, "
+            "with `annotate --recursive` over the directory / the project (each .license option), annotate of named files, lint, "
+            "spdx, convert-dep5, download, singly and in sequences; without Git the same names are all covered; same snapshot "
+            "oracle: an ignored file is never written, whatever its name; oracle only")
+
+    def cases(self, tier, rng):
+        thorough = tier == "thorough"
+        rec = {"cmd": "annotate", "dot": None, "recursive": True, "named": ["oddd"]}
+        for k in sorted(ODD_NAMES):
+            for shape in (("ign",), ("igndir",)) + ((("ign", "igndir"),) if thorough else ()):
+                odd = {"cov": [x for x in ("nfd", "comb") if x != k], "ign": [], "igndir": [], "twin": None}
+                for sh in shape:
+                    odd[sh] = [k]
+                tree = {"git": True, "tracked": rng.random() < 0.5, "lic": "none", "sibs": [], "sl": False, "odd": odd}
+                yield {"tree": tree, "terms": [], "cmds": [rec]}
+                if thorough:
+                    yield {"tree": tree, "terms": [], "cmds": [{"cmd": "lint"}, dict(rec, dot="fallback", named=["."]), {"cmd": "spdx"}]}
+        for twin in ("nfc", "nfd"):
+            tree = {"git": True, "tracked": False, "lic": "none", "sibs": [], "sl": False, "odd": {"cov": ["astral"], "ign": ["space"], "igndir": [], "twin": twin}}
+            yield {"tree": tree, "terms": [], "cmds": [rec]}
+            yield {"tree": tree, "terms": [], "cmds": [{"cmd": "annotate", "dot": None, "named": [TWINS["nfc"], TWINS["nfd"]]}]}
+        for _ in range(160 if thorough else 14):
+            git = rng.random() < 0.8
+            tree = {"git": git, "tracked": git and rng.random() < 0.5, "lic": rng.choice(["none", "none", "dep5", "toml"]), "sibs": [], "sl": False,
+                    "odd": gen_odd(rng, git)}
+            case = {"tree": tree, "terms": rng.choice([[], [], ["*/"]])}
+            case["cmds"] = [gen_cmd(rng, case, False) for _ in range(rng.randint(1, 3))]
+            if not any(c.get("recursive") for c in case["cmds"]):
+                case["cmds"].append(dict(rec, dot=rng.choice([None, "skip"])))
+            yield case
 
 
 class SubRootStream(CommandStream):
@@ -696,7 +891,10 @@ def parse_strace(text, cwd):
         if call in ("symlink", "symlinkat"):
             use = paths[-1:]
         for p in use:
-            p = p.encode().decode("unicode_escape") if "\\" in p else p
+            if "\\" in p:
+                # strace writes every byte outside printable ASCII as an octal escape: back to the bytes, then to a file name
+                import codecs
+                p = os.fsdecode(codecs.escape_decode(p.encode("ascii", "backslashreplace"))[0])
             out.append((call, os.path.normpath(p if os.path.isabs(p) else os.path.join(cwd, p))))
     return out
 
@@ -720,6 +918,12 @@ class StraceStream(CommandStream):
         for k in sorted(READ_ONLY) + ["lint-file"]:
             yield {"tree": {"git": True, "tracked": True, "lic": "dep5", "sibs": [], "sl": True}, "terms": [],
                    "cmds": [{"cmd": k, "named": ["a.c", "l_in.c"]} if k == "lint-file" else {"cmd": k}]}
+        for dl in sorted(DEP5_LINKS):
+            yield {"tree": {"git": rng.random() < 0.5, "tracked": False, "lic": "dep5", "sibs": [], "sl": False, "dl": dl}, "terms": [], "cmds": [{"cmd": "convert-dep5"}]}
+        for k in ("latin1", "cont", "nfd", "astral"):
+            yield {"tree": {"git": True, "tracked": True, "lic": "none", "sibs": [], "sl": False,
+                            "odd": {"cov": ["nfc", "comb", "space"], "ign": [k], "igndir": [k], "twin": "nfd" if k != "nfd" else "nfc"}},
+                   "terms": [], "cmds": [{"cmd": "annotate", "dot": None, "recursive": True, "named": ["oddd"]}]}
         for _ in range(45):
             case = {"tree": self.gen_tree(rng), "terms": rng.choice([[], ["*/"]])}
             case["cmds"] = [gen_cmd(rng, case, False)]
@@ -743,8 +947,10 @@ class StraceStream(CommandStream):
             # resolve through symbolic links on the final tree: a write through a link counts at its target
             resolved = []
             for call, p in calls:
-                real = p if call in ("unlink", "unlinkat", "rename", "renameat", "renameat2", "symlink", "symlinkat") else \
-                    os.path.join(os.path.realpath(os.path.dirname(p)), os.path.basename(p)) if not os.path.islink(p) else os.path.realpath(p)
+                # calls that act on a directory entry (unlink, rename, symlink) act on the entry itself -- in the directory its
+                # parent path leads to --, the others on what the path leads to
+                real = os.path.join(os.path.realpath(os.path.dirname(p)), os.path.basename(p)) \
+                    if call in ("unlink", "unlinkat", "rename", "renameat", "renameat2", "symlink", "symlinkat") or not os.path.islink(p) else os.path.realpath(p)
                 resolved.append((call, p, real))
         self.side[json.dumps(case, sort_keys=True)] = (s0, s1, g0, g1, resolved, top, r.returncode, r.stderr[-300:])
         return "%d|%d write-like calls" % (r.returncode, len(resolved))
@@ -756,17 +962,20 @@ class StraceStream(CommandStream):
         cmd = case["cmds"][0]
         why = judge(case, cmd, s0, s1, g0, g1)
         if why:
-            return why
+            return why.encode("utf-8", "backslashreplace").decode("utf-8")
         al, _ = allowed_for(case, cmd, s0)
         proj = os.path.join(top, "proj")
         for call, p, real in calls:
             if real.startswith(WHITELIST) or "__pycache__" in real or real == log_path(top):
                 continue
             rel = os.path.relpath(real, proj)
+            if rel in al and call in ("unlink", "unlinkat") and cmd["cmd"] == "convert-dep5":
+                continue     # the entry .reuse/dep5, wherever `.reuse` leads
             if rel.startswith(".."):
                 return "syscall-outside: `reuse %s` issued %s on %s (outside the project)" % (" ".join(argv_of(case, cmd)), call, real)
             if rel not in al:
-                return "syscall-stray: `reuse %s` issued %s on %s, which is not among %s" % (" ".join(argv_of(case, cmd)), call, rel, sorted(al)[:8])
+                return ("syscall-stray: `reuse %s` issued %s on %s, which is not among %s" % (" ".join(argv_of(case, cmd)), call, rel, sorted(al)[:8])
+                        ).encode("utf-8", "backslashreplace").decode("utf-8")
         return None
 
     def nontrivial(self, case, impl_out):
@@ -779,7 +988,7 @@ def log_path(top):
 
 PROPERTY = Property(
     pid="C15",
-    streams=[CommandStream(), UnmodelledStream(), SubRootStream(), StraceStream()],
+    streams=[CommandStream(), UnmodelledStream(), OddNameStream(), SubRootStream(), StraceStream()],
     assumptions=[
         "the model's file system has no write-through: a write at path p changes p only. That no written path is a symbolic link "
         "(or lies below a linked directory) is checked on the real tree by the snapshot of the outside sentinel and by the "
@@ -797,5 +1006,12 @@ PROPERTY = Property(
         "the process runs as root: the read-only file (mode 0444) is writable, so 'read-only files' are exercised only as a mode "
         "that must be preserved",
         "Git is the only VCS installed",
+        "tree flavour dl (`.reuse/dep5` or `.reuse` a symbolic link) is oracle-only: the model's convert-dep5 reads a regular file. Where `.reuse` "
+        "itself links to a directory outside the project the ENTRY `.reuse/dep5` lives outside; its removal by convert-dep5 is the one change "
+        "tolerated there (the property text does not say what should happen instead)",
+        "tree flavour odd: names that are not valid UTF-8 are given to Git-ignored files and directories only; covered files (and files named on "
+        "the command line) carry unusual but valid names, because the tool prints the names of the files it handles and the in-process runner's "
+        "output stream is strict UTF-8 (a matter of C16). On the unrepaired tree every command over a tree with an ignored non-UTF-8 name ends in "
+        "UnicodeDecodeError (fixes/vcs-paths-fsdecode.diff, `fixed` entry): the check's green state depends on that repair",
     ],
 )
